@@ -634,6 +634,35 @@ impl World {
 					if regress {
 						self.out.bump("probe:release_of_older_secret_again");
 					}
+					// C05-2, the other order: the commitment being revoked was handed to the
+					// broadcaster earlier (then it may confirm, and the peer can punish)
+					let a = self.oracle.rev.entry((n, keys_id)).or_default();
+					let txid = a.validated.get(&idx).cloned();
+					let funding = a.funding;
+					if let Some(txid) = txid {
+						let handed = self.nodes[n].broadcaster.first_seen.lock().unwrap().get(&txid).cloned();
+						if let Some(h) = handed {
+							let ci = funding.and_then(|f| self.chans.iter().position(|c| c.funding == f));
+							let by_update = ci
+								.and_then(|ci| self.oracle.fc_update_step.get(&(n, ci)).cloned())
+								.map(|s| s <= h)
+								.unwrap_or(false);
+							let ctx = if by_update {
+								"[the ChannelForceClosed monitor update was not durable when the node crashed; the restarted node resumed the channel]"
+							} else {
+								"[the ChannelMonitor broadcast it on its own while processing chain data; no ChannelForceClosed update had been issued]"
+							};
+							self.revoked_after_broadcast.insert(n);
+							self.violate(
+								"C05",
+								"C05-2 holder commitment revoked after it had been broadcast",
+								format!(
+									"node {} handed its commitment {} ({}) to the broadcaster at step {} and released that commitment's revocation secret at step {} {}",
+									n, idx, txid, h, st, ctx
+								),
+							);
+						}
+					}
 				},
 				SignerCall::SignHolderCommitment { keys_id, number, txid } => {
 					self.out.bump("oracle:C05-2 no signature on revoked holder state");
